@@ -46,7 +46,16 @@ class FalsyPreErr(PreErr):
         return False
 
 
+class StopErr(StopIteration):
+    """a worker may raise StopIteration like any other exception"""
+    def __init__(self, code):
+        super().__init__(code)
+        self.code = code
+
+
 def stage_err(code):
+    if code == 24:
+        return StopErr(code)
     return (FalsyStageErr if code % 4 == 3 else StageErr)(code)
 
 
@@ -63,19 +72,19 @@ def _dur(xx, scale):
 CALLS = {}        # case id -> inputs the worker function received (thread pool / event loop only: same process)
 
 
-def f(xx, *, fail, off, scale, cid=None, q=0, to_stop=0):      # (q, to_stop: names the library uses internally)
+def f(xx, *, fail, off, scale, cid=None, q=0, to_stop=0, loop=0):      # (q, to_stop, loop: names the library uses internally)
     if cid is not None:
         CALLS.setdefault(cid, []).append(xx - off)
     time.sleep(_dur(xx, scale))
     if (xx - off) in fail:
         raise stage_err(fail[xx - off])
-    return 3 * xx + 1 + q + to_stop
+    return 3 * xx + 1 + q + to_stop + loop
 
 
-async def af(xx, *, fail, off, scale, cid=None, tasks=0, to_stop=0):
+async def af(xx, *, fail, off, scale, cid=None, tasks=0, to_stop=0, loop=0):
     if cid is not None:
         CALLS.setdefault(cid, []).append(xx - off)
     await asyncio.sleep(_dur(xx, scale))
     if (xx - off) in fail:
         raise stage_err(fail[xx - off])
-    return 3 * xx + 1 + tasks + to_stop
+    return 3 * xx + 1 + tasks + to_stop + loop
